@@ -443,9 +443,9 @@ func runWSP(t evid.TB, pl *plan) *result {
 		// windows, resume, then drain
 		e.sync()
 		atomic.StoreInt32(&e.windowsOff, 1)
-		e.tg.in.Wait(bound())
+		e.tg.in.Wait(bound("wsp"))
 		id, err := x.send("PLAY")
-		if err != nil || !waitFor(bound(), func() bool { return x.answered(id) || x.broken() }) {
+		if err != nil || !waitFor(bound("wsp"), func() bool { return x.answered(id) || x.broken() }) {
 			res.v = &verdict{"response-missing", fmt.Sprintf("final PLAY (seq %s) not answered: %v", id, err)}
 		} else {
 			res.complete = e.drain(x.allAnswered)
